@@ -129,6 +129,30 @@ fn gen_path(rng: &mut Rng, hot_only: bool) -> String {
     join(&comps)
 }
 
+/// `Some(literal)` if the only meta characters of `p` are backslashes each quoting an ordinary character
+/// (not a glob meta character, not '/'), and there is at least one.
+fn simple_unescape(p: &str) -> Option<String> {
+    if !p.contains('\\') {
+        return None;
+    }
+    let mut out = String::new();
+    let mut it = p.chars();
+    while let Some(c) = it.next() {
+        if c == '\\' {
+            let n = it.next()?;
+            if "*?[]{}\\/!^-,".contains(n) {
+                return None;
+            }
+            out.push(n);
+        } else if "*?[]{}".contains(c) {
+            return None;
+        } else {
+            out.push(c);
+        }
+    }
+    Some(out)
+}
+
 fn has_meta(p: &str) -> bool {
     p.chars().any(|c| "*?[]{}\\".contains(c))
 }
@@ -191,6 +215,27 @@ pub fn run(tier: &str, seed: u64, report: &mut Report) {
         for x in corner_paths {
             cases.push((ps.iter().map(|p| p.to_string()).collect(), x.to_string()));
         }
+    }
+    // long exclusion lists (an exclude file of a hundred lines): 70–100 plain fillers around the corner
+    // patterns, among them shell-style escaped spaces
+    let escaped: &[&[&str]] = &[&["/a\\ b"], &["a\\ b"], &["/x/a\\ b"], &["/a\\ b", "c"], &["\\*"], &["/é\\ é"]];
+    let esc_paths = ["/a b", "/a b/c", "/x/a b", "/x/a b/y", "/a", "/c", "/*", "/é é", "/é é/z", "/ab"];
+    for ps in escaped {
+        for x in esc_paths {
+            cases.push((ps.iter().map(|p| p.to_string()).collect(), x.to_string()));
+        }
+    }
+    for (li, ps) in corner_pats.iter().chain(escaped.iter()).enumerate() {
+        let n_fill = 70 + (li * 7) % 31;
+        let mut long: Vec<String> = (0..n_fill).map(|i| if i % 3 == 0 { format!("filler-{i}") } else { format!("/fill/er{i}") }).collect();
+        let at = (li * 13) % (n_fill + 1);
+        for (j, p) in ps.iter().enumerate() {
+            long.insert((at + j).min(long.len()), p.to_string());
+        }
+        for x in corner_paths.iter().chain(esc_paths.iter()).step_by(2) {
+            cases.push((long.clone(), x.to_string()));
+        }
+        report.hit("excl:long-list(>=64 patterns)");
     }
     report.hit_n("excl:corner-cases", cases.len() as u64);
     while cases.len() < n_excl {
@@ -267,9 +312,11 @@ pub fn run(tier: &str, seed: u64, report: &mut Report) {
             if i == "true" && x == "/" {
                 report.hit("excl:root-matched");
             }
-            if pats.iter().all(|p| !has_meta(p) && !p.is_empty() && !p.ends_with('/') && !p.contains("//")) {
+            // a backslash before an ordinary character only quotes it: such patterns are literals too
+            let unesc: Vec<String> = pats.iter().map(|p| simple_unescape(p).unwrap_or_else(|| p.clone())).collect();
+            if pats.iter().all(|p| (simple_unescape(p).is_some() || !has_meta(p)) && !p.is_empty() && !p.ends_with('/') && !p.contains("//")) {
                 report.hit("oracle:literal-rule-checked");
-                let want = literal_rule(pats, x);
+                let want = literal_rule(&unesc, x);
                 if want != (i == "true") {
                     report.oracle_fail("literal-rule", case(), "plain-name patterns: excluded iff the path or an ancestor is (anchored) / ends with (unanchored) the name", json!(i));
                 }
